@@ -1,0 +1,25 @@
+// +build verif
+
+package bplus
+
+// Contracts for the verifier in /verif (comment-only; see /verif/DESIGN.md).
+// C14 for the in-memory back end, relative to the assumed contract of
+// google/btree (see /verif/contracts/trusted). A stored item's key is the table
+// prefix byte followed by the user key, so for a returned user key k (a sub-slice
+// of the stored key) the byte just before it, k[-1], is the table it came from.
+
+/*@
+immutable BPlusTreeStore.db by NewBPlusTreeStore
+
+func BPlusTreeStore.Get
+  props C14
+  requires s.db != nil
+  ensures isnil(result_1) ==> result_0 != nil && result_0.Key == key
+
+// the last key of table t is a key OF TABLE t
+func BPlusTreeStore.GetLast
+  props C14
+  requires s.db != nil
+  ensures C14/last-belongs-to-table: isnil(result_1) ==> result_0 != nil && result_0.Key[-1] == prefixOf(table)
+  call 3 invariant result != nil && (isnil(result.Key) || result.Key[-1] == prefixOf(table))
+@*/
